@@ -486,6 +486,37 @@ def m_permits_restored(run):
     return f
 
 
+# ---------------------------------------------------------------- C09 (system level)
+def m_progress_sum(run):
+    """For a successful transfer the on_progress values of every subscriber sum to the
+    transfer size and the running sum stays within [0, size]."""
+    f = []
+    labels = transfer_of_label(run)
+    sizes = {lb: ts['size'] for lb, ts in zip(sorted(labels, key=lambda x: int(x[1:])), run.spec['transfers'])} \
+        if getattr(run, 'spec', None) else {}
+    per = {}
+    for r in run.trace:
+        if r['ev'] == 'on_progress':
+            per.setdefault((r['t'], r['sub']), []).append(r['n'])
+    for lb, t in labels.items():
+        if run.results.get(lb, ('?',))[0] != 'ok' or lb not in sizes:
+            continue
+        if run.spec['transfers'][int(lb[1:])]['kind'] == 'delete':
+            continue
+        size = sizes[lb]
+        for (tt, sub), vals in per.items():
+            if tt != t:
+                continue
+            tot, lo, hi = 0, 0, 0
+            for v in vals:
+                tot += v
+                lo, hi = min(lo, tot), max(hi, tot)
+            if tot != size or lo < 0 or hi > size:
+                f.append(f'{lb}/{sub}: progress reports {vals[:12]}{"..." if len(vals) > 12 else ""} sum to {tot} '
+                         f'(running sum in [{lo}, {hi}]) for a successful transfer of {size} bytes')
+    return f
+
+
 # ---------------------------------------------------------------- C17 (system level)
 def m_first_failure_kept(run):
     """The first failure or cancellation recorded for a transfer is the one kept: after
